@@ -85,7 +85,7 @@ def main():
     out_dir = os.path.join(V, "seeded")
     os.makedirs(out_dir, exist_ok=True)
     rows = []
-    rounds = [("/tmp/wt", "mut", "M"), ("/tmp/wt2", "mut2", "N"), ("/tmp/wt3", "mut3", "P"), ("/tmp/wt5", "mut4", "Q"), ("/tmp/wt6", "mut5", "R")]
+    rounds = [("/tmp/wt", "mut", "M"), ("/tmp/wt2", "mut2", "N"), ("/tmp/wt3", "mut3", "P"), ("/tmp/wt5", "mut4", "Q"), ("/tmp/wt6", "mut5", "R"), ("/tmp/wt7", "mut6", "S")]
     for pid in [f"C{i:02d}" for i in range(1, 20)]:
       for WTd, resd, letter in rounds:
         for k in (1, 2):
